@@ -136,11 +136,12 @@ type clk struct{}
 func (clk) Now() time.Time { return time.Unix(1, 0) }
 
 func run(r *vk.Run) {
-	r.Describe("lossy (no backpressure) Collection.Pull / PullID / Value.Pull driven by receive permits: every valid sequence over {add,update,remove} x ids {a,b} (Value: set) of length <= 4 (thorough <= 6) from initial contents {empty,{a}} x every permit pattern (0/1 receive after each write), each step taken at a quiescent point; the received events are folded with per-id chain checks (ADD only for an id not held, UPDATE/REPLACE/REMOVE carry the held value as old value) and compared with List/Get after a final drain; every write must have returned at the quiescent point after it, also while the subscriber has not taken its seed yet and after a subscriber went away in the middle of its seed. Backpressure: nothing dropped, order kept, at most the pipeline depth of writes completes while the consumer is idle. Value send timeout: a Set whose event is not taken returns an error. Distinct = (resource, initial contents, op sequence, permit pattern).",
+	r.Describe("lossy (no backpressure) Collection.Pull / PullID / Value.Pull driven by receive permits: every valid sequence over {add,update,remove} x ids {a,b} (Value: set) of length <= 4 (thorough <= 6) from initial contents {empty,{a}} x every permit pattern (0/1 receive after each write), each step taken at a quiescent point; the received events are folded with per-id chain checks (ADD only for an id not held, UPDATE/REPLACE/REMOVE carry the held value as old value) and compared with List/Get after a final drain; every write must have returned at the quiescent point after it, also while the subscriber has not taken its seed yet, after a subscriber went away in the middle of its seed and after a subscription was opened with an already cancelled context; a backpressured subscriber next to an idle lossy one still gets every event exactly as written. Backpressure: nothing dropped, order kept, at most the pipeline depth of writes completes while the consumer is idle. Value send timeout: a Set whose event is not taken returns an error. Distinct = (resource, initial contents, op sequence, permit pattern).",
 		"quiescence stands for 'the consumer has received everything it will get'; permits model arbitrarily slow consumers",
 		"the five-second send timeout is real wall-clock time inside the library; the verdict is the returned error, the 120 s watchdog only yields inconclusive")
 	lossyCollection(r)
 	cancelDuringSeed(r)
+	mixedSubscribers(r)
 	lossyValue(r)
 	backpressure(r)
 	randomPacing(r)
@@ -373,7 +374,7 @@ func cancelDuringSeed(r *vk.Run) {
 	for _, kind := range []string{"pull", "pullid"} {
 		for _, bp := range []bool{false, true} {
 			for _, items := range []int{1, 3} {
-				for _, taken := range []int{0, 1} {
+				for _, taken := range []int{-1, 0, 1} { // -1: the context is cancelled before the subscribing call
 					idx++
 					if !r.Mine(idx) || taken >= items && kind == "pull" {
 						continue
@@ -386,12 +387,17 @@ func cancelDuringSeed(r *vk.Run) {
 					ctx, cancel := context.WithCancel(context.Background())
 					c := newConsumer()
 					c.cancel = cancel
+					if taken < 0 {
+						cancel()
+					}
 					if kind == "pull" {
 						c.runCol(col.Pull(ctx, resource.WithBackpressure(bp)))
 					} else {
 						c.runVal(col.PullID(ctx, "a", resource.WithBackpressure(bp)))
 					}
-					c.grant(taken)
+					if taken > 0 {
+						c.grant(taken)
+					}
 					mode := map[bool]string{false: "lossy", true: "bp"}[bp]
 					desc := fmt.Sprintf("%s/%s %d initial items, %d taken, then cancelled", kind, mode, items, taken)
 					if _, ok := r.MustQuiesce("c09-cancel-open"); !ok {
@@ -425,6 +431,122 @@ func cancelDuringSeed(r *vk.Run) {
 			}
 		}
 	}
+}
+
+// mixedSubscribers: a backpressured subscriber that keeps receiving and a lossy subscriber that does not receive at
+// all listen to the same collection. What the lossy side does with the changes it is holding back (merging,
+// cancelling ADD against REMOVE) must not show in what the backpressured subscriber is given: nothing dropped,
+// every event exactly as written (kind, old value, new value), in write order. The lossy subscriber is then drained
+// and its fold compared with List.
+func mixedSubscribers(r *vk.Run) {
+	n := r.Pick(300, 20000)
+	for i := 0; i < n; i++ {
+		if !r.Mine(i) {
+			continue
+		}
+		rng := r.CaseRand("c09-mixed", i)
+		col := resource.NewCollection(resource.WithClock(clk{}))
+		ctx, cancel := context.WithCancel(context.Background())
+		live, idle := newConsumer(), newConsumer()
+		live.cancel, idle.cancel = cancel, cancel
+		live.runCol(col.Pull(ctx, resource.WithBackpressure(true)))
+		idle.runCol(col.Pull(ctx, resource.WithBackpressure(false)))
+		live.grant(1 << 20)
+		if _, ok := r.MustQuiesce("c09-mixed-open"); !ok {
+			live.stop()
+			idle.stop()
+			return
+		}
+		present := map[string]*tat{}
+		type wrote struct {
+			typ      types.ChangeType
+			id       string
+			old, new *tat
+		}
+		var log []wrote
+		var steps []string
+		k := rng.Range(4, 9)
+		blocked := false
+		for j := 0; j < k && !blocked; j++ {
+			id := []string{"a", "b"}[rng.Intn(2)]
+			cur := present[id]
+			var w wrote
+			var do func()
+			switch {
+			case cur == nil:
+				v := mkValLocked(id)
+				w = wrote{types.ChangeType_ADD, id, nil, v}
+				do = func() { col.Add(id, v) }
+				present[id] = v
+				steps = append(steps, "add("+id+")")
+			case rng.Chance(1, 2):
+				v := mkValLocked(id)
+				w = wrote{types.ChangeType_UPDATE, id, cur, v}
+				do = func() { col.Update(id, v) }
+				present[id] = v
+				steps = append(steps, "update("+id+")")
+			default:
+				w = wrote{types.ChangeType_REMOVE, id, cur, nil}
+				do = func() { col.Delete(id) }
+				delete(present, id)
+				steps = append(steps, "remove("+id+")")
+			}
+			log = append(log, w)
+			t := vk.Go(do)
+			if _, ok := r.MustQuiesce("c09-mixed-write"); !ok {
+				live.stop()
+				idle.stop()
+				return
+			}
+			r.Count("writes", 1)
+			if !t.Done() {
+				r.Violation("C09/writer-blocked/pull/mixed-subscribers", fmt.Sprintf("write #%d of [%s] has not returned at the quiescent point after it: the only idle subscriber is lossy\n%s", j, strings.Join(steps, " "), vk.DescribeGs(vk.LibraryGoroutines(vk.Goroutines(), nil))), map[string]any{"case": i})
+				idle.grant(1 << 20)
+				t.Wait()
+				blocked = true
+			}
+		}
+		desc := strings.Join(steps, " ")
+		r.Eval(1)
+		r.Count("mixed-subscriber-scenarios", 1)
+		r.Distinct("mixed|" + desc)
+		if !blocked {
+			live.mu.Lock()
+			got := append([]*resource.CollectionChange{}, live.colEv...)
+			live.mu.Unlock()
+			bad := ""
+			if len(got) != len(log) {
+				bad = fmt.Sprintf("received %d events for %d writes", len(got), len(log))
+			}
+			for j := 0; bad == "" && j < len(log); j++ {
+				e, w := got[j], log[j]
+				oldOK := (w.old == nil && (e.OldValue == nil || !e.OldValue.ProtoReflect().IsValid())) || (w.old != nil && vk.SameMessage(e.OldValue, w.old))
+				newOK := (w.new == nil && (e.NewValue == nil || !e.NewValue.ProtoReflect().IsValid())) || (w.new != nil && vk.SameMessage(e.NewValue, w.new))
+				if e.ChangeType != w.typ || e.Id != w.id || !oldOK || !newOK {
+					bad = fmt.Sprintf("event #%d is {%s %q old=%s new=%s}, the write was {%s %q old=%s new=%s}", j, e.ChangeType, e.Id, vk.JSON(e.OldValue), vk.JSON(e.NewValue), w.typ, w.id, vk.JSON(w.old), vk.JSON(w.new))
+				}
+			}
+			if bad != "" {
+				r.Violation("C09/dropped-with-backpressure/pull/mixed-subscribers", fmt.Sprintf("[%s] with an idle lossy subscriber next to it, the backpressured subscriber: %s\nreceived:\n    %s", desc, bad, renderCol(got)), map[string]any{"case": i, "steps": steps})
+			}
+			idle.grant(1 << 20)
+			if _, ok := r.MustQuiesce("c09-mixed-drain"); ok {
+				idle.mu.Lock()
+				evs := append([]*resource.CollectionChange{}, idle.colEv...)
+				idle.mu.Unlock()
+				view := vk.NewView(true)
+				for _, e := range evs {
+					view.Apply(e)
+				}
+				if list := col.List(); !vk.SameList(view.Sorted(), list) {
+					r.Violation("C09/fold/collection/mixed-subscribers", fmt.Sprintf("[%s]: the drained lossy subscriber folds to %s, List %s\nreceived:\n    %s", desc, vk.ListJSON(view.Sorted()), vk.ListJSON(list), renderCol(evs)), map[string]any{"case": i, "steps": steps})
+				}
+			}
+		}
+		live.stop()
+		idle.stop()
+	}
+	r.Require("mixed-subscriber-scenarios", 50)
 }
 
 func touchesA(steps []step) bool {
